@@ -527,6 +527,135 @@ def rule_K_PROC(ctx, repo):
                              '%s:%d' % (mk.rel, fi.node.lineno), render_path(o))
 
 
+def rule_K_STATE(ctx, repo):
+    """K-STATE: a keymap that is copied or pickled keeps its configuration.  Without __getstate__ / __reduce__ the whole __dict__ travels; a class that
+    customises the state must not leave out (or rebuild from defaults) an attribute that __init__ fills from its arguments - `keymap(type=kind)`,
+    `keymap(sorted=...)`, typed, flat, sentinel: the clone would compute different keys for the calls the original cached."""
+    m = repo.mod('keymaps')
+    n = 0
+    for ci in m.classes.values():
+        init = ci.methods.get('__init__')
+        if init is None:
+            continue
+        a = init.node.args
+        pnames = set(x.arg for x in a.args[1:] + a.kwonlyargs) | (set([a.kwarg.arg]) if a.kwarg else set()) | (set([a.vararg.arg]) if a.vararg else set())
+        configured = {}
+        for node in ast.walk(init.node):
+            if isinstance(node, ast.Assign):
+                for t in node.targets:
+                    if isinstance(t, ast.Attribute) and isinstance(t.value, ast.Name) and t.value.id == a.args[0].arg:
+                        if any(isinstance(x, ast.Name) and x.id in pnames for x in ast.walk(node.value)):
+                            configured[t.attr] = node.lineno
+        if not configured:
+            continue
+        n += 1
+        gs, ss = ci.methods.get('__getstate__'), ci.methods.get('__setstate__')
+        red = ci.methods.get('__reduce__') or ci.methods.get('__reduce_ex__')
+        dropped, rebuilt = {}, {}
+        if gs is not None:
+            consts = {}
+            for node in ast.walk(gs.node):
+                if isinstance(node, ast.For) and isinstance(node.target, ast.Name) and isinstance(node.iter, (ast.Tuple, ast.List, ast.Set)):
+                    consts[node.target.id] = [e.value for e in node.iter.elts if isinstance(e, ast.Constant)]
+            for node in ast.walk(gs.node):
+                keys = []
+                if isinstance(node, ast.Call) and isinstance(node.func, ast.Attribute) and node.func.attr in ('pop', '__delitem__') and node.args:
+                    k = node.args[0]
+                    keys = [k.value] if isinstance(k, ast.Constant) else consts.get(k.id, []) if isinstance(k, ast.Name) else []
+                elif isinstance(node, ast.Delete):
+                    for t in node.targets:
+                        if isinstance(t, ast.Subscript):
+                            k = t.slice
+                            keys += [k.value] if isinstance(k, ast.Constant) else consts.get(k.id, []) if isinstance(k, ast.Name) else []
+                for k in keys:
+                    if k in configured:
+                        dropped[k] = node.lineno
+        if ss is not None:
+            sp = [x.arg for x in ss.node.args.args]
+            for node in ast.walk(ss.node):
+                if isinstance(node, ast.Assign):
+                    for t in node.targets:
+                        if isinstance(t, ast.Attribute) and isinstance(t.value, ast.Name) and t.value.id == sp[0] and t.attr in configured:
+                            if not any(isinstance(x, ast.Name) and x.id in sp[1:] for x in ast.walk(node.value)):
+                                rebuilt[t.attr] = node.lineno
+        bad = sorted(set(dropped) | set(rebuilt))
+        ctx.ob('K-STATE', '%s keeps %d configured attributes through copy / pickle' % (ci.label, len(configured)), not bad)
+        if bad:
+            line = (dropped.get(bad[0]) or rebuilt.get(bad[0]))
+            ctx.fail('K-STATE', ci.qual, 'pickled state leaves out %s' % ', '.join(bad),
+                     '%s.__init__ fills %s from its arguments, but __getstate__/__setstate__ %s: a copied or unpickled keymap falls back to the default, so the '
+                     'clone computes other keys than the original for the same calls and every entry the original cached is missed'
+                     % (ci.label, ', '.join(bad), 'drops them from the state' if dropped else 'rebuilds them from defaults'), '%s:%d' % (m.rel, line))
+        if red is not None and not (gs or ss):
+            # a __reduce__ on a keymap class is decided by its own obligations elsewhere (none today): note it
+            ctx.ob('K-STATE', '%s defines __reduce__ (not analysed here)' % ci.label, True)
+    if n < 1:
+        raise AnalysisError('instance count below confirmed minimum: no keymap class fills attributes from constructor arguments')
+
+
+def rule_K_BYREF(ctx, repo):
+    """K-BYREF: picklemap hands byref=True to the serializer unless the caller says otherwise.  dill then pickles classes and functions of
+    __main__ by reference (a name); by value it would embed their current attribute values - mutable class-level state of the process - in the key.
+    The default is written on every path; if it is made conditional on the serializer, the test runs on the normalised name (after a module object
+    was replaced by its __name__), never on the raw argument."""
+    m = repo.mod('keymaps')
+    ci = m.classes.get('picklemap')
+    if ci is None or '__init__' not in ci.methods:
+        raise AnalysisError('anchor vanished: keymaps.picklemap.__init__')
+    fn = ci.methods['__init__'].node
+    parents = {}
+    for n in ast.walk(fn):
+        for ch in ast.iter_child_nodes(n):
+            parents[ch] = n
+    writes = []
+    for n in ast.walk(fn):
+        if isinstance(n, ast.Assign) and any(isinstance(t, ast.Subscript) and isinstance(t.slice, ast.Constant) and t.slice.value == 'byref' for t in n.targets):
+            writes.append(n)
+        elif isinstance(n, ast.Call) and isinstance(n.func, ast.Attribute) and n.func.attr == 'setdefault' and n.args \
+                and isinstance(n.args[0], ast.Constant) and n.args[0].value == 'byref':
+            writes.append(n)
+        elif isinstance(n, ast.keyword) and n.arg == 'byref':
+            writes.append(n)
+    where = '%s:%d' % (m.rel, fn.lineno)
+    ok = bool(writes)
+    ctx.ob('K-BYREF', 'picklemap.__init__ defaults byref', ok)
+    if not ok:
+        ctx.fail('K-BYREF', ci.methods['__init__'].qual, 'no byref default',
+                 'picklemap.__init__ no longer defaults byref=True for the serializer: dill then pickles classes and functions of __main__ by value, so the key of '
+                 'an argument embeds class-level state of the process that built it', where)
+        return
+    # normalisation statements: self.__type__ = <x>.__name__
+    norm = [n.lineno for n in ast.walk(fn) if isinstance(n, ast.Assign) and isinstance(n.value, ast.Attribute) and n.value.attr == '__name__']
+    for w in writes:
+        conds = []
+        cur = w
+        while cur in parents and parents[cur] is not fn:
+            par = parents[cur]
+            if isinstance(par, (ast.If, ast.IfExp)) and cur is not par.test:
+                conds.append(par.test)
+            elif isinstance(par, (ast.For, ast.While, ast.Try)):
+                conds.append(par)
+            cur = par
+        bad = None
+        for c in conds:
+            if not isinstance(c, ast.expr):
+                bad = (c, 'inside a loop / try block')
+                break
+            txt = unparse(c)
+            about_serializer = '__type__' in txt or 'serializer' in txt
+            if not about_serializer:
+                bad = (c, 'under the condition `%s`' % txt[:50])
+                break
+            if norm and c.lineno < min(norm) and any(isinstance(x, ast.Constant) and isinstance(x.value, str) for x in ast.walk(c)):
+                bad = (c, 'under `%s`, tested before the serializer argument is normalised to its name (line %d): a module object never equals the string' % (txt[:50], min(norm)))
+                break
+        ctx.ob('K-BYREF', 'byref default at line %d applies on every path' % w.lineno, bad is None)
+        if bad is not None:
+            ctx.fail('K-BYREF', ci.methods['__init__'].qual, 'byref default is conditional',
+                     'picklemap.__init__ sets the byref=True default only %s: for the other configurations dill pickles classes and functions of __main__ by value, '
+                     'so a key embeds class-level state of the process that built it and differs between processes' % bad[1], '%s:%d' % (m.rel, bad[0].lineno))
+
+
 def rule_K_REPR(ctx, repo):
     """marker objects that can be embedded in keys have a constant repr"""
     sites = [('keymaps', '_Sentinel', 'SENTINEL'), ('keymaps', '_NoSentinel', 'NOSENTINEL'), ('_inspect', '_Null', 'NULL')]
